@@ -135,8 +135,22 @@ def tieWith (i : LayoutIn) (n : Nat) (ctrL rbL : List (Array String)) (lbub : Op
   if symImpl != symModel then return some s!"isSymmetrical: impl {symImpl} model {symModel}"
   return none
 
+/-- `isomv id depth breadth s:<isom>` lines: m_depth, m_breadth, computeIsomString() of the subtree rooted at
+    every node against the model's `Key` -/
+def tieKeys (c : Case) (i : LayoutIn) : Option String := Id.run do
+  let mk := (i.root, TreeLayout.mkKey (TreeLayout.keys i.kids)) :: TreeLayout.allKeys i.kids
+  for a in c.get "isomv" do
+    match mk.lookup (nat! a[0]!) with
+    | none => return some s!"isomv: node {a[0]!} not in the model tree"
+    | some k =>
+      if k.depth != nat! a[1]! then return some s!"m_depth of subtree {a[0]!}: impl {a[1]!} model {k.depth}"
+      if k.breadth != nat! a[2]! then return some s!"m_breadth of subtree {a[0]!}: impl {a[2]!} model {k.breadth}"
+      if "s:" ++ k.isom != a[3]! then
+        return some s!"computeIsomString of subtree {a[0]!}: impl {a[3]!} model s:{k.isom}"
+  return none
+
 def tieLayout (c : Case) (i : LayoutIn) (n : Nat) : Option String :=
-  tieWith i n (c.get "ctr").toList (c.get "rb").toList (c.get1 "lbub")
+  (tieKeys c i).orElse fun _ => tieWith i n (c.get "ctr").toList (c.get "rb").toList (c.get1 "lbub")
     (((c.get1 "laid").map (fun a => a[1]! == "1")).getD false)
 
 /-- the same tie for tree number `k` of a peel case (lines `psz/pkids/pctr/prb/plbub k …`) -/
